@@ -46,6 +46,8 @@ TRUSTED = [
     "cross-connection frame (C03_frame / C03_pool_history): that nothing but a connection's own pair-verify raises its flag is "
     "tied by the extracted writer table (C03_only_setter_table) and by the cross-connection stream (admin pairings operations "
     "on another connection, then the sweep)",
+    "C03_pump_request lifts the per-request statement through _process_one_event/_process_response (model HapModel/Pump.lean, "
+    "tied by C19's transcript replay): nothing parked, no key installed, no teardown, no advertisement refresh",
     "C03_noninterference is per request (dispatch): unsolicited writes to an unverified connection (EVENT messages, a delayed "
     "snapshot shared with another session) are judged by this harness's busy-accessory oracle on the real code, and are the "
     "subject of C12/C13's theorems (events only to verified+subscribed connections; nothing held for a lost connection)",
